@@ -135,7 +135,8 @@ inductive ContribShape (e : ε) (ph : String) (r : LRun ε) : RunsAcc ε → Pro
   | halted (r' : LRun ε) (hid : r'.run.id = r.run.id) (hpat : r'.pat = r.pat) :
       ContribShape e ph r { keep := [], hc := [], hi := [r'.ser ph], upd := [] }
   | updated (r' : LRun ε) (hid : r'.run.id = r.run.id) (hpat : r'.pat = r.pat)
-      (hle : active r.run.idx r.run.hist.size ≤ active r'.run.idx r'.run.hist.size) :
+      (hle : active r.run.idx r.run.hist.size ≤ active r'.run.idx r'.run.hist.size)
+      (hah : ahead (r'.ser ph) r.run = true) (hlv : r'.run.halted = false) :
       ContribShape e ph r { keep := [r'], hc := [], hi := [], upd := [r'.ser ph] }
   | same : ContribShape e ph r { keep := [r], hc := [], hi := [], upd := [] }
 
@@ -160,12 +161,14 @@ theorem contrib_shape (e : ε) (ph : String) (r : LRun ε) : ContribShape e ph r
           obtain ⟨⟨g, hg⟩, hidx⟩ := changed_live_records r.pat r.run e (by rw [hp]) hlive
           rw [hp] at hg hidx
           simp only at hg hidx
-          refine .updated { r with run := run' } hid rfl ?_
           have := addEvent_size_ge r.run.hist g e
           rw [← hg] at this
-          rw [le_def]
-          simp only [active, Nat.lt_irrefl, false_or, true_and]
-          omega
+          refine .updated { r with run := run' } hid rfl ?_ ?_ (by simpa using hh)
+          · rw [le_def]
+            simp only [active, Nat.lt_irrefl, false_or, true_and]
+            omega
+          · simp only [ahead, LRun.ser, gt_iff_lt, Bool.or_eq_true, decide_eq_true_eq, Bool.and_eq_true, beq_iff_eq]
+            omega
     | raised =>
       have := raise_leaves_run r.pat r.run e (by rw [hp])
       rw [hp] at this; simp at this; subst this
